@@ -253,7 +253,7 @@ func run(e *core.Env) {
 		case 0: // build a query datagram; the adversary may hold it
 			l := labels[tp.Intn(len(labels))]
 			name := l + ".myco."
-			switch tp.Intn(8) {
+			switch tp.Intn(11) {
 			case 0:
 				name = strings.ToUpper(name)
 			case 1:
@@ -266,6 +266,12 @@ func run(e *core.Env) {
 				name = "myco."
 			case 5:
 				name = "sub." + l + ".myco."
+			case 6:
+				name = "." // the root name (e.g. a priming query)
+			case 7:
+				name = []string{"com.", "org.", "local.", "arpa."}[tp.Intn(4)]
+			case 8:
+				name = l + `\.myco.` // an escaped dot: one label, not in the zone
 			}
 			qt := []uint16{mdns.TypeAAAA, mdns.TypeAAAA, mdns.TypeA, mdns.TypeSVCB, mdns.TypeHTTPS, mdns.TypeANY, mdns.TypeTXT, mdns.TypeMX, mdns.TypeCNAME, mdns.TypeNS, mdns.TypePTR, uint16(tp.Intn(65536))}[tp.Intn(12)]
 			cl := []uint16{mdns.ClassINET, mdns.ClassINET, mdns.ClassINET, mdns.ClassANY, mdns.ClassCHAOS, mdns.ClassNONE, uint16(tp.Intn(65536))}[tp.Intn(7)]
